@@ -300,15 +300,22 @@ def run_driver(exe, lines, timeout=600):
 
 # ----------------------------------------------------------------------------- findings
 def load_findings(pid):
+    """known_findings.jsonl (committed, never written at run time).  One JSON object per line:
+    {"property": "C06", "key": "<stable id of the failing input / call site>", "status": "known"|"fixed",
+     "what": "<one line>", "repro": {...}, "commit": "<sha, for fixed>"}"""
     out = []
-    fn = os.path.join(ROOT, "known_findings.jsonl")
-    if os.path.exists(fn):
-        for l in open(fn):
-            l = l.strip()
-            if l and not l.startswith("#"):
-                e = json.loads(l)
-                if e["property"] == pid:
-                    out.append(e)
+    fns = [os.path.join(ROOT, "known_findings.jsonl")]
+    fd = os.path.join(ROOT, "findings")
+    if os.path.isdir(fd):
+        fns += sorted(os.path.join(fd, f) for f in os.listdir(fd) if f.endswith(".jsonl"))
+    for fn in fns:
+        if os.path.exists(fn):
+            for l in open(fn):
+                l = l.strip()
+                if l and not l.startswith("#"):
+                    e = json.loads(l)
+                    if e["property"] == pid:
+                        out.append(e)
     return out
 
 
